@@ -61,6 +61,10 @@ CHECKS = {
          "Exploration / model-based: the real Runtime::add outcome must equal the model's for every add call and must never panic; after success every function, constant, method and static method is called from a generated script and must return its identity tag; undeclared paths must not compile.",
          "Closure signatures come from 5 shapes over 6 marker types; uses of missing paths and aliases equal to a declared name are outside the stated property and discarded; uses inside modules excluded while C18-F4 is open.",
          "DESIGN.md §4 C18"),
+ "C19": ("generated scripts with test blocks (constant-decided accept/reject, early exits, name collisions with functions, several modules) vs an outcome model: run_tests/get_tests results, exactly-once tag log, order determinism; plus the real roto CLI binary (check/test/run) on generated valid and invalid scripts",
+         "Exploration: library-level oracle on thousands of generated scripts per run and exit-status/output predicates on the command-line binary built from /repo for a sample of them.",
+         "Outcomes are decided by constant conditions; CLI doc/print sub-commands not driven; CLI sample is ~3% of the cases.",
+         "DESIGN.md §4 C19"),
  "C20": ("generated non-recursive programs; differential between the LIR evaluator (hook verif_eval) and the JIT code built from the same lowered IR; evaluator panics accepted as 'stops loudly'",
          "Exploration / differential: evaluator and compiled code start from the same lowered IR; whenever the evaluator completes, return value and host-call log must match the compiled code.",
          "About half of the generated programs make the evaluator stop loudly (unsupported features); reported in evidence classes.",
